@@ -45,6 +45,7 @@ def field_options(attr):
         ('u8', u8, [], True),
         ('F', F, [], False),
         ('F-ignore', F, a(ignore=True), True),
+        ('u8-ignore', u8, a(ignore=True), True),
         ('F-key-eq', F, a(key='$ . 0 . to_bits ( )'), True),
         ('u8-key-noneq', u8, a(key='( $ as f32 )'), False),
         ('F-key-noneq', F, a(key='$ . 0'), False),
@@ -56,8 +57,8 @@ def field_options(attr):
 class C17(Prop):
     pid = 'C17'
     tag = 'the Eq impl and its hidden checker (CONST part)'
-    rule = ('EXHAUSTIVE over: {struct named/tuple, enum with the field in the 1st/2nd variant} x 1-2 fields, each from 8 '
-            'options {u8, F (PartialEq only), F ignored, F key->Eq, u8 key->non-Eq, F key->non-Eq, F by, u8 key->Eq} on '
+    rule = ('EXHAUSTIVE over: {struct named/tuple, enum with the fields in the 1st/2nd variant, named or tuple} x 1-3 fields, each from 9 '
+            'options {u8, F (PartialEq only), F ignored, u8 ignored, F key->Eq, u8 key->non-Eq, F key->non-Eq, F by, u8 key->Eq} on '
             '#[eq(..)] or #[ord(..)] x both entry points; one field carrying both #[eq(o1)] and #[ord(o2)], o in {key->Eq, key->non-Eq, by}, '
             'either order; plus generic X<T> with default / overriding bound(..); compiled '
             '(metadata only) against the real proc-macro: accepted iff every compared component is Eq; non-trivial = every case')
@@ -70,15 +71,20 @@ class C17(Prop):
         out = []
         for attr in ('eq', 'ord'):
             opts = field_options(attr)
-            for shape, mode in itertools.product(('named', 'tuple', 'enum0', 'enum1'), ('attr', 'derive')):
-                combos = [(o,) for o in opts] + [(a, b) for a in opts for b in opts if (a[3] != b[3] or a[0] != b[0])][::3]
+            for shape, mode in itertools.product(('named', 'tuple', 'enum0', 'enum1', 'enumt0', 'enumt1'), ('attr', 'derive')):
+                combos = [(o,) for o in opts] + [(a, b) for a in opts for b in opts if (a[3] != b[3] or a[0] != b[0])]
+                # three fields: an ignored field before / between compared ones (positions must not drift)
+                ign = [o for o in opts if o[0].endswith('ignore')]
+                plain = [o for o in opts if o[0] in ('u8', 'F')]
+                combos += [(i, p, q) for i in ign for p in plain for q in plain] + [(p, i, q) for i in ign for p in plain for q in plain]
                 for fl in combos:
-                    fs = [sx.field(t, name=('f%d' % i) if shape != 'tuple' else None, attrs=at)
+                    tup = shape in ('tuple', 'enumt0', 'enumt1')
+                    fs = [sx.field(t, name=None if tup else ('f%d' % i), attrs=at)
                           for i, (_, t, at, _) in enumerate(fl)]
-                    body = sx.named(fs) if shape != 'tuple' else sx.unnamed(fs)
+                    body = sx.unnamed(fs) if tup else sx.named(fs)
                     if shape.startswith('enum'):
                         vs = [sx.variant('A', body), sx.variant('B', sx.unnamed([sx.field(sx.tid('u8'))]))]
-                        if shape == 'enum1':
+                        if shape in ('enum1', 'enumt1'):
                             vs.reverse()
                         it = sx.enum('E', vs)
                         kw = '(enum ('
@@ -98,7 +104,7 @@ class C17(Prop):
             fs = [sx.field(t, name='f0' if shape != 'tuple' else None, attrs=at),
                   sx.field(sx.tid('u8'), name='f1' if shape != 'tuple' else None)]
             body = sx.named(fs) if shape != 'tuple' else sx.unnamed(fs)
-            if shape == 'enum1':
+            if shape in ('enum1', 'enumt1'):
                 it = sx.enum('E', [sx.variant('B', sx.UNIT), sx.variant('A', body)])
                 kw = '(enum ('
             else:
